@@ -13,12 +13,14 @@ package checker
 //@
 //@ func (*checker.Checker).StepCount
 //@   property C20
+//@   inline
 //@   requires c != nil
 //@   ensures count: result == len(c.steps)
 //@
 //@ func (*checker.Checker).CheckFailed
 //@   names failed
 //@   property C20
+//@   inline
 //@   requires c != nil
 //@   requires forall i :: 0 <= i && i < len(c.steps) ==> c.steps[i] != 0
 //@   ensures in-order-stop-at-first-failure: exists k :: 0 <= k && k <= len(c.steps) && tn == old(tn) + (failed ? k + 1 : k) &&
@@ -34,6 +36,7 @@ package checker
 //@
 //@ func (*checker.Checker).addStep
 //@   property C20
+//@   inline
 //@   assigns C:[]checker.step#b, C:[]checker.step#l
 //@   requires c != nil
 //@   ensures appended: len(c.steps) == old(len(c.steps)) + 1 && c.steps[old(len(c.steps))] == f
@@ -41,6 +44,7 @@ package checker
 //@
 //@ func (*checker.Checker).WithValueNotEmptyCheck
 //@   property C20
+//@   inline
 //@   assigns C:[]checker.step#b, C:[]checker.step#l
 //@   requires c != nil
 //@   ensures appended: len(c.steps) == old(len(c.steps)) + 1 && result == c
@@ -49,12 +53,14 @@ package checker
 //@ func (*checker.Checker).WithValueNotEmptyCheck$1
 //@   names failed
 //@   property C20
+//@   inline
 //@   requires deref(value) != 0 && deref(errorFunc) != 0 && deref(value) != deref(errorFunc)
 //@   ensures fail-iff-empty: failed <==> getStr(deref(value)) == ""
 //@   ensures callback-once-iff-failed: (failed ==> calledOnce(deref(errorFunc))) && (!failed ==> notCalled(deref(errorFunc)))
 //@
 //@ func (*checker.Checker).WithValuesNotEmptyCheck
 //@   property C20
+//@   inline
 //@   assigns C:[]checker.step#b, C:[]checker.step#l
 //@   requires c != nil
 //@   ensures appended: len(c.steps) == old(len(c.steps)) + 1 && result == c
@@ -63,6 +69,7 @@ package checker
 //@ func (*checker.Checker).WithValuesNotEmptyCheck$1
 //@   names failed
 //@   property C20
+//@   inline
 //@   requires deref(values) != 0 && deref(errorFunc) != 0 && deref(values) != deref(errorFunc)
 //@   ensures fail-iff-some-empty: failed <==> (exists j :: 0 <= j && j < getSliceLen(deref(values)) && values(deref(values))[j] == "")
 //@   ensures callback-once-iff-failed: (failed ==> calledOnce(deref(errorFunc))) && (!failed ==> notCalled(deref(errorFunc)))
@@ -71,6 +78,7 @@ package checker
 //@
 //@ func (*checker.Checker).WithValueLengthCheck
 //@   property C20
+//@   inline
 //@   assigns C:[]checker.step#b, C:[]checker.step#l
 //@   requires c != nil
 //@   ensures appended: len(c.steps) == old(len(c.steps)) + 1 && result == c
@@ -79,6 +87,7 @@ package checker
 //@ func (*checker.Checker).WithValueLengthCheck$1
 //@   names failed
 //@   property C20
+//@   inline
 //@   requires deref(value) != 0 && deref(errorFunc) != 0 && deref(value) != deref(errorFunc)
 //@   ensures fail-iff-outside-nonzero-bounds: failed <==> ((deref(minlength) > 0 && len(getStr(deref(value))) < deref(minlength)) ||
 //@             (deref(maxlength) > 0 && len(getStr(deref(value))) > deref(maxlength)))
@@ -86,6 +95,7 @@ package checker
 //@
 //@ func (*checker.Checker).WithValueEqualsCheck
 //@   property C20
+//@   inline
 //@   assigns C:[]checker.step#b, C:[]checker.step#l
 //@   requires c != nil
 //@   ensures appended: len(c.steps) == old(len(c.steps)) + 1 && result == c
@@ -94,12 +104,14 @@ package checker
 //@ func (*checker.Checker).WithValueEqualsCheck$1
 //@   names failed
 //@   property C20
+//@   inline
 //@   requires deref(value) != 0 && deref(equal) != 0 && deref(errorFunc) != 0 && deref(value) != deref(errorFunc) && deref(equal) != deref(errorFunc)
 //@   ensures fail-iff-unequal: failed <==> getStr(deref(value)) != getStr(deref(equal))
 //@   ensures callback-once-iff-failed: (failed ==> calledOnce(deref(errorFunc))) && (!failed ==> notCalled(deref(errorFunc)))
 //@
 //@ func (*checker.Checker).WithConditionalValueNotEmpty
 //@   property C20
+//@   inline
 //@   assigns C:[]checker.step#b, C:[]checker.step#l
 //@   requires c != nil
 //@   ensures appended: len(c.steps) == old(len(c.steps)) + 1 && result == c
@@ -108,12 +120,14 @@ package checker
 //@ func (*checker.Checker).WithConditionalValueNotEmpty$1
 //@   names failed
 //@   property C20
+//@   inline
 //@   requires deref(cond) != 0 && deref(value) != 0 && deref(errorFunc) != 0 && deref(cond) != deref(errorFunc) && deref(value) != deref(errorFunc)
 //@   ensures fail-iff-cond-and-empty: failed <==> (getBool(deref(cond)) && getStr(deref(value)) == "")
 //@   ensures callback-once-iff-failed: (failed ==> calledOnce(deref(errorFunc))) && (!failed ==> notCalled(deref(errorFunc)))
 //@
 //@ func (*checker.Checker).WithConditionalLogicStep
 //@   property C20
+//@   inline
 //@   assigns C:[]checker.step#b, C:[]checker.step#l
 //@   requires c != nil
 //@   ensures appended: len(c.steps) == old(len(c.steps)) + 1 && result == c
@@ -122,6 +136,7 @@ package checker
 //@ func (*checker.Checker).WithConditionalLogicStep$1
 //@   names failed
 //@   property C20
+//@   inline
 //@   requires deref(cond) != 0 && deref(logic) != 0 && deref(errorFunc) != 0
 //@   requires deref(cond) != deref(logic) && deref(cond) != deref(errorFunc) && deref(logic) != deref(errorFunc)
 //@   ensures cond-first: select(trfn, old(tn)) == deref(cond)
@@ -133,6 +148,7 @@ package checker
 //@
 //@ func (*checker.Checker).WithLogicStep
 //@   property C20
+//@   inline
 //@   assigns C:[]checker.step#b, C:[]checker.step#l
 //@   requires c != nil
 //@   ensures appended: len(c.steps) == old(len(c.steps)) + 1 && result == c
@@ -141,6 +157,7 @@ package checker
 //@ func (*checker.Checker).WithLogicStep$1
 //@   names failed
 //@   property C20
+//@   inline
 //@   requires deref(logic) != 0 && deref(errorFunc) != 0 && deref(logic) != deref(errorFunc)
 //@   ensures logic-first-once: select(trfn, old(tn)) == deref(logic) && calledOnce(deref(logic))
 //@   ensures fail-iff-error: failed <==> select(trres, old(tn)) != 0
@@ -150,6 +167,7 @@ package checker
 //@
 //@ func (*checker.Checker).WithValueStep
 //@   property C20
+//@   inline
 //@   assigns C:[]checker.step#b, C:[]checker.step#l
 //@   requires c != nil
 //@   ensures appended: len(c.steps) == old(len(c.steps)) + 1 && result == c
@@ -158,6 +176,7 @@ package checker
 //@ func (*checker.Checker).WithValueStep$1
 //@   names failed
 //@   property C20
+//@   inline
 //@   requires deref(logic) != 0
 //@   ensures never-fails: !failed
 //@   ensures logic-once: calledOnce(deref(logic)) && tn == old(tn) + 1
